@@ -31,6 +31,8 @@ class Prop:
                "64-bit initial values at the edge of 2^64 x every tail length)",
                "read(tun.NativeTun.Read in vnet-hdr mode over a socketpair == handle_virtio_read of exactly the bytes written, "
                "reads up to 10 + 65535 bytes)",
+               "concurrent(3 goroutines in NativeTun.Read on one device, alone and while 2 goroutines run NativeTun.Write/GRO: "
+               "every Read result == handle_virtio_read of the super-packet it claims, each super-packet returned exactly once)",
                "segments(tun.handleVirtioRead == Offload.Gso.handle_virtio_read, byte for byte, errors and panics included)",
                "spec(Offload.GsoSpec clauses evaluated in Coq on the segments tun.handleVirtioRead produced)"]
     rule = ("virtio-net reads from one PRNG: TCPv4/TCPv6/UDP super-packets (IPv4 options 0..40, TCP options 0..40, "
@@ -104,8 +106,10 @@ class Prop:
             if f.startswith("cases_C17_"):
                 os.unlink(os.path.join(d, f))
         inp = os.path.join(d, "in.json")
-        keys = ("gseed", "type", "init", "data", "proto", "src", "dst", "tlen", "raw", "nbufs", "offset", "room")
-        json.dump([{k: c[k] for k in keys if k in c} for c in cases], open(inp, "w"))
+        keys = ("conc", "gseed", "type", "init", "data", "proto", "src", "dst", "tlen", "raw", "nbufs", "offset", "room")
+        # an observation made in a concurrent pass is re-judged as recorded (the harness keeps it)
+        obs = ("panic", "touched", "n", "err", "segs", "gen", "info")
+        json.dump([{k: c[k] for k in keys + (obs if c.get("conc") else ()) if k in c} for c in cases], open(inp, "w"))
         self._run_go(["-replay", inp, "-out", d, "-shards", str(min(16, max(1, len(cases))))])
         meta, files = self._load(d)
         outs = vlib.run_case_files(files)
@@ -119,8 +123,8 @@ class Prop:
                 if 0 <= keep < len(d):
                     yield dict(case, data=base64.b64encode(d[len(d) - keep:]).decode())
             return
-        if case.get("type") == "ph":
-            return
+        if case.get("type") == "ph" or case.get("conc"):
+            return      # an observation of a concurrent pass is not reproduced by a call on its own
         raw = base64.b64decode(case["raw"])
         base = {"nbufs": case["nbufs"], "offset": case["offset"], "room": case["room"]}
         if case.get("type"):
@@ -158,7 +162,8 @@ class Prop:
                 yield c
 
     def signature(self, case, f):
-        return describe(f["kind"], f["pos"], short=True)
+        s = describe(f["kind"], f["pos"], short=True)
+        return ("concurrent-read:" + s) if case.get("conc") else s
 
     def nontrivial(self, c):
         if c.get("type") in ("ck", "ph"):
